@@ -61,6 +61,9 @@ def close(a, b):
 
 def same_components(d, want):
     got = comps(d)
+    if want.get("weeks", 1) == 0:
+        # zero weeks is the empty (unit-form) duration
+        want = {}
     if "weeks" in want or "weeks" in got:
         return got.get("weeks") == want.get("weeks") and \
             set(got) == set(want)
@@ -261,6 +264,22 @@ def make_alt(rng):
         alt_t += tsep + "%02d" % mi
     if tform >= 3:
         alt_t += tsep + "%02d" % s
+    if rng.random() < 0.35:
+        # decimal fraction on the last spelled unit
+        k = rng.randint(1, 4)
+        digits = "%0*d" % (k, rng.randrange(1, 10 ** k))
+        point = rng.choice(",.")
+        alt_t += point + digits
+        frac = float("0." + digits)
+        unit = {1: "hours", 2: "minutes", 3: "seconds"}[tform]
+        want[unit] = want[unit] + frac
+        desig_t = ""
+        for u, letter in (("hours", "H"), ("minutes", "M"),
+                          ("seconds", "S")):
+            if u == unit:
+                desig_t += ("%d" % int(want[u])) + "," + digits + letter
+                break
+            desig_t += "%d%s" % (want[u], letter)
     return {"op": "alt", "alt": "P" + alt_d + "T" + alt_t,
             "desig": "P" + desig_d + "T" + desig_t, "want": want,
             "kind": kind}
